@@ -79,6 +79,7 @@ type instOpts struct {
 	maxTTL    int
 	ecs       bool
 	ipMarker  []string // lines "start,end,label"
+	clients   []string // addresses the scenario's clients use (C15 live part)
 	limiter   router.LimiterConfig
 	maxConc   int32
 	xffHeader string
@@ -182,7 +183,12 @@ func newInstDup(name string, o instOpts, dupUp, dupSet bool) (*inst, error) {
 		a16, b16 := a.As16(), b.As16()
 		markers = append(markers, map[string]any{"lo": vtrace.Bytes(a16[:]), "hi": vtrace.Bytes(b16[:]), "label": vtrace.Bytes([]byte(p[2]))})
 	}
-	in.tr.Emit("cfg", "markers", markers, "rules", rulesJS, "settags", settags, "setlines", setlines, "ecs", o.ecs, "cache", o.cacheMem > 0,
+	clientsJS := []any{}
+	for _, c := range o.clients {
+		a, _ := netip.ParseAddr(c)
+		clientsJS = append(clientsJS, addrJS(a))
+	}
+	in.tr.Emit("cfg", "clients", clientsJS, "v4mask", o.limiter.Client.V4Mask, "v6mask", o.limiter.Client.V6Mask, "markers", markers, "rules", rulesJS, "settags", settags, "setlines", setlines, "ecs", o.ecs, "cache", o.cacheMem > 0,
 		"maxttl", o.maxTTL, "maxconc", int(o.maxConc), "limit", o.limiter.Client.Limit, "burst", o.limiter.Client.Burst)
 	instMu.Lock()
 	insts = append(insts, in)
@@ -406,7 +412,7 @@ func (in *inst) send(lst, src string, q qspec, wait time.Duration, hdr map[strin
 		srcA, _ = netip.ParseAddr(x)
 	}
 	in.tr.Emit("cl.send", "qn", qn, "lst", lst, "src", addrJS(srcA), "id", int(q.id), "qr", q.qr, "opcode", q.opcode, "rd", q.rd,
-		"nq", q.nq, "name", labelsJS(q.name), "cls", int(q.cls), "typ", int(q.typ), "opt", q.opt, "optsize", int(q.optsize), "optopts", q.optopts, "len", len(w))
+		"nq", q.nq, "name", labelsJS(q.name), "cls", int(q.cls), "typ", int(q.typ), "opt", q.opt, "optsize", int(q.optsize), "optopts", q.optopts, "len", len(w), "mayrefuse", strings.HasPrefix(src, "127.0.1.") && in.name == "c15live")
 	raw, status, err := in.roundTrip(lst, src, w, wait, hdr)
 	if err != nil || raw == nil {
 		e := ""
@@ -423,6 +429,14 @@ func (in *inst) send(lst, src string, q qspec, wait time.Duration, hdr map[strin
 	}
 	return r, status
 }
+
+// sendMay is send for a client that may legitimately be refused at connection level (limiter)
+func (in *inst) sendMay(lst, src string, q qspec, wait time.Duration) {
+	mayRefuse = true
+	in.send(lst, src, q, wait, nil)
+}
+
+var mayRefuse bool
 
 func ttlJS(t uint32) []int { return []int{int(t >> 16), int(t & 0xffff)} }
 
